@@ -1091,7 +1091,7 @@ func ParseExecBlock(p *ParserZH, mainIndent int) *syntax.ExecBlock {
 	})
 
 	if !syntax.ContainsInt(hState, validEndStates) {
-		panic(p.getInvalidSyntaxCurr())
+		panic(p.getInvalidSyntaxPeek())
 	}
 
 	return execBlock
